@@ -135,6 +135,8 @@ pub struct BrokerCfg {
     pub disconnect: bool,
     /// Offer unsolicited acks for unknown identifiers (cost 1).
     pub stale_acks: bool,
+    /// Offer malformed inbound data (cost 1).
+    pub garbage: bool,
     /// Publishes the broker may originate, in this order.
     pub script: Vec<InPub>,
     /// The broker may retransmit (DUP) an unacknowledged publish on the same connection (cost 1).
@@ -160,6 +162,7 @@ impl Default for BrokerCfg {
             bad_handshake: false,
             disconnect: false,
             stale_acks: false,
+            garbage: false,
             script: Vec::new(),
             dup_retransmit: false,
             reorder_window: 4,
